@@ -40,6 +40,7 @@ fn main() {
         std::process::exit(vcheck::replay::replay(&prop, &path));
     }
     let run = match prop.as_str() {
+        "C02" => vcheck::checks::c02::run(tier),
         "C03" => vcheck::checks::c03::run(tier),
         "C04" => vcheck::checks::c04::run(tier),
         "C05" => vcheck::checks::c05::run(tier),
